@@ -5,10 +5,13 @@ use super::super::{
     meta_subscriber::MoveSubscriber,
     meta_container::MoveContainer,
 };
+#[cfg(not(feature = "verif"))]
 use std::{fmt::Debug, sync::atomic::{
     AtomicU32,
     Ordering::{Relaxed, Release},
 }, ptr, cell::UnsafeCell, num::NonZeroU32, pin::Pin, mem::ManuallyDrop};
+#[cfg(feature = "verif")]
+use {crate::verif::atomic::AtomicU32, std::{fmt::Debug, sync::atomic::Ordering::{Relaxed, Release}, ptr, cell::UnsafeCell, num::NonZeroU32, pin::Pin, mem::ManuallyDrop}};
 use crossbeam::utils::CachePadded;
 
 
@@ -46,6 +49,17 @@ AtomicMove<SlotType, BUFFER_SIZE> {
 
     fn with_initializer<F: Fn() -> SlotType>(slot_initializer: F) -> Self {
         debug_assert!(Self::BUFFER_SIZE_MUST_BE_A_POWER_OF_2);     // assures no non-power of 2 buffer may be used
+        #[cfg(feature = "verif")]
+        if crate::verif::sequence_origin() != 0 {
+            let origin = crate::verif::sequence_origin();
+            return Self {
+                head:                 CachePadded::new(AtomicU32::new(origin)),
+                tail:                 CachePadded::new(AtomicU32::new(origin)),
+                dequeuer_head:        CachePadded::new(AtomicU32::new(origin)),
+                enqueuer_tail:        CachePadded::new(AtomicU32::new(origin)),
+                buffer:               UnsafeCell::new(Box::pin([0; BUFFER_SIZE].map(|_| ManuallyDrop::new(slot_initializer())))),
+            }
+        }
         // if !BUFFER_SIZE.is_power_of_two() {
         //     panic!("FullSyncMeta: BUFFER_SIZE must be a power of 2, but {BUFFER_SIZE} was provided.");
         // }
